@@ -20,7 +20,7 @@ type stepCase struct {
 }
 
 func c04Actions(native bool) []*actlang.Prog {
-	return []*actlang.Prog{
+	acts := []*actlang.Prog{
 		nil,
 		prog(native, Op{K: actlang.Set, A: "a", V: 1.0}),
 		prog(native, Op{K: actlang.Del, A: "a"}),
@@ -32,6 +32,11 @@ func c04Actions(native bool) []*actlang.Prog {
 		prog(native, Op{K: actlang.Set, A: "t", V: "n1"}, Op{K: actlang.Emit, V: "x"}, Op{K: actlang.Emit, V: "y"}),
 		prog(native, Op{K: actlang.RetSame}),
 	}
+	if !native {
+		// a script that scribbles over whatever step properties it was given, at every depth
+		acts = append(acts, prog(false, Op{K: actlang.Raw, A: `if (_.props.cfg) { _.props.cfg.x = 99; if (_.props.cfg.l) { _.props.cfg.l.push(2); } } if (_.props.hosts) { _.props.hosts[0].up = false; _.props.hosts[0].tags.push("t"); } _.props.added = 1;`}))
+	}
+	return acts
 }
 
 func c04Guards(native bool) []*actlang.Prog {
